@@ -168,7 +168,11 @@ func poolObligations(c *Checker, pfx string) {
 				detail = "effects: " + describeEffects(ms) + " result: " + valString(o.Ret)
 				if ok {
 					pp, isPP := ms[0].Args[0].(PtrV)
-					ok = isPP && pp.Obj != nil && pp.Obj.Name == "*"+paramName(fn, 0)+".pool"
+					fld := "pool"
+					if pm := c.poolModel(); pm.ok && pm.poolFld != "" {
+						fld = pm.poolFld // the field that holds the *sync.Pool, whatever it is called
+					}
+					ok = isPP && pp.Obj != nil && pp.Obj.Name == "*"+paramName(fn, 0)+"."+fld
 				}
 			}
 			c.expect(ok, r("2"), "PoolAllocator.Get", c.pos(fn.Pos()), "returns exactly what sync.Pool.Get returned, untouched", "Get does more than return the pool's item: "+detail)
